@@ -263,6 +263,104 @@ def gen_drop_variants(rng, n):
     return out
 
 
+def gen_io_burst(rng, n):
+    """C01: the in-band report is written after a VALIDATION failure only: one validation failure, a quiet
+    period (the 1/s rate limiter is open again), then I/O failures - none of them may be followed by a report"""
+    out = []
+    for i in range(n):
+        nb = rng.randint(3, 8)
+        res = {str(70001 + k): "io" for k in range(nb + 1)}
+        res["70001"] = rng.choice(["val", "io"])
+        out.append({"cap": 256, "boxed": rng.random() < 0.5, "flush_us": 1000, "producers": [{"n": 3, "pace_us": 0}],
+                    "results": res, "flushers": [], "end": "drop", "report_burst": {"quiet_ms": rng.choice([1150, 1300]), "n": nb},
+                    "kind": "io-burst"})
+    return out
+
+
+def gen_allfail_progress(rng, n):
+    """C04 (bounded progress): a stream that rejects EVERY entry, a producer that keeps the queue non-empty
+    (faster than the slow stream, the queue overflows), flush requests in the middle: each completes before
+    the writer has handed over `lbound` further entries. lbound = 2*cap + 3*D + 64 where D = flush_us/slow_us + 33
+    bounds one drain pass (the clock is checked every 32 entries; every hand-off takes at least slow_us):
+    the pass in progress at the request, one batch of earlier requests (cap entries + its last pass), and
+    the request's own batch."""
+    out = []
+    for i in range(n):
+        cap = rng.choice([8, 16])
+        slow = rng.choice([200, 250, 300])
+        flush_us = rng.choice([500, 1000])
+        d = flush_us // slow + 33
+        lbound = 2 * cap + 3 * d + 64
+        total = lbound + rng.randint(250, 350)
+        kind = rng.choice(["io", "val", "mixed"])
+        res = {str(10001 + k): (kind if kind != "mixed" else rng.choice(["io", "val"])) for k in range(total)}
+        out.append({"cap": cap, "boxed": rng.random() < 0.5, "flush_us": flush_us, "slow_us": slow,
+                    "producers": [{"n": total, "pace_us": slow // 2}], "results": res,
+                    "flushers": [{"count": 2, "delay_us": rng.randint(8000, 20000), "gap_us": rng.randint(0, 3000)}],
+                    "end": "drop", "lbound": lbound, "heavy": True, "kind": "allfail-progress"})
+    return out
+
+
+def gen_pingpong(rng, n):
+    """C04: append / flush ping-pong against a stream whose flush is slow: many appends land while the
+    writer is inside a periodic stream flush that began with an empty queue; the request follows after a
+    random delay (during that flush, after it, after the hand-off) and well before the next periodic flush"""
+    out = []
+    for i in range(n):
+        fs = rng.choice([2000, 4000])
+        fu = rng.choice([5000, 10000])
+        out.append({"cap": rng.choice([4, 64]), "boxed": rng.random() < 0.5, "flush_us": fu,
+                    "flush_slow_us": fs, "producers": [{"n": rng.randint(25, 40), "pace_us": 0, "flush_each": True, "jitter_us": fu,
+                                                        "flush_delay_us": fs + 1500}],
+                    "results": {}, "flushers": [], "end": rng.choice(["drop", "live"]), "kind": "pingpong"})
+    return out
+
+
+def gen_aod(rng, n):
+    """C05: AppendOnDrop guards (into_entry / forget / dropped) are queue handles while they live and not
+    afterwards: after forget + the last handle dropped the queue still shuts down by itself"""
+    out = []
+    for i in range(n):
+        out.append({"cap": 64, "boxed": rng.random() < 0.5, "flush_us": 1000, "producers": [{"n": rng.randint(2, 10), "pace_us": 0}],
+                    "results": {}, "flushers": [], "end": "forget" if i % 4 != 3 else "drop",
+                    "aod": [rng.choice([1, 2, 3]) for _ in range(rng.randint(1, 4))] + [1], "kind": "append-on-drop"})
+    return out
+
+
+def gen_builder_order(rng, n):
+    """C09: the order of BackgroundQueueBuilder calls does not matter: shutdown_timeout LAST; one bulk run
+    with a capacity above the default 64Ki (stalled writer, 1000-2000 entries beyond the capacity)"""
+    out = []
+    for i in range(n):
+        if i == 0:
+            cap = rng.choice([70000, 66000])
+            out.append({"cap": cap, "boxed": rng.random() < 0.5, "flush_us": 1000, "producers": [{"n": cap + rng.randint(1000, 2000), "pace_us": 0}],
+                        "results": {}, "flushers": [], "end": "drop", "recorder": True, "bulk": True, "stall": {"k": 1},
+                        "st_last": True, "kind": "bulk-bigcap"})
+        else:
+            cap = rng.choice([1, 4, 8])
+            out.append({"cap": cap, "boxed": rng.random() < 0.5, "flush_us": 1000, "producers": [{"n": cap + rng.randint(2, 12), "pace_us": 0}],
+                        "results": {}, "flushers": [], "end": "drop", "recorder": True, "stall": {"k": 1}, "st_last": True,
+                        "shutdown_timeout_ms": rng.choice([0, 5000]), "kind": "builder-order"})
+    return out
+
+
+def gen_overflow_phases(rng, n):
+    """C09: appending never blocks: several producers overflow the full (stalled) queue continuously for
+    more than a second (the once-per-second overflow log becomes due while all of them are appending), each
+    pausing 300 us at the verification point rl.loaded, which sits between the rate limiter's load of the
+    next slot and its compare-exchange; and runs with a recorder for the count"""
+    out = []
+    for i in range(n):
+        for rec, ms in ((False, 1300), (True, 250)):
+            out.append({"cap": rng.choice([1, 4]), "boxed": rng.random() < 0.5, "flush_us": 1000, "producers": [{"n": 6, "pace_us": 0}],
+                        "results": {}, "flushers": [], "end": "drop", "recorder": rec, "count_only": True, "stall": {"k": 1},
+                        "point_delay": {"rl.loaded": 300},
+                        "overflow_phases": {"phases": 1, "quiet_ms": 10, "threads": 6, "per": 0, "hammer_ms": ms},
+                        "kind": "overflow-hammer"})
+    return out
+
+
 def gen_count_only(rng, n, per):
     out = []
     for i in range(n):
@@ -289,14 +387,23 @@ def tame(sc):
     return sc
 
 
-def run_recorded(chk, prop, scen, tag="rec", chunk=150, subscriber=False, extra_args=None):
+def run_recorded(chk, prop, scen, tag="rec", chunk=150, subscriber=False, extra_args=None, vchunk=20):
     """Run scenarios in the real code and validate their traces against QueueTrace.tla."""
     scen = [tame(s) for s in scen]
+    heavy = [s for s in scen if s.get("heavy")]
+    if heavy and tag == "rec":
+        # long single traces: validated one per TLC run (a chunk of them would hit the chunk timeout)
+        run_recorded(chk, prop, heavy, tag="heavy", chunk=chunk, vchunk=1)
+        scen = [s for s in scen if not s.get("heavy")]
     counting = [s for s in scen if s.get("count_only")]
     if counting and tag == "rec":
         run_recorded(chk, prop, counting, tag="cnt", chunk=chunk)
         scen = [s for s in scen if not s.get("count_only")]
-    tspec = "QueueCountTrace" if tag == "cnt" else "QueueTrace"
+    bulk = [s for s in scen if s.get("bulk")]
+    if bulk and tag == "rec":
+        run_recorded(chk, prop, bulk, tag="bulk", chunk=chunk)
+        scen = [s for s in scen if not s.get("bulk")]
+    tspec = {"cnt": "QueueCountTrace", "bulk": "QueueBulkTrace"}.get(tag, "QueueTrace")
     total_events = 0
     for c0 in range(0, len(scen), chunk):
         part = scen[c0:c0 + chunk]
@@ -304,7 +411,7 @@ def run_recorded(chk, prop, scen, tag="rec", chunk=150, subscriber=False, extra_
         tp = os.path.join(chk.dir, f"{tag}-{c0}-trace.ndjson")
         mp = os.path.join(chk.dir, f"{tag}-{c0}-meta.ndjson")
         vlib.write_ndjson(sp, part)
-        vlib.run_bin("bq", ["run", "--scenarios", sp, "--out", tp, "--meta", mp] + (["--subscriber", "1"] if subscriber else []) + (extra_args or []),
+        vlib.run_bin("bq", ["run", "--scenarios", sp, "--out", tp, "--meta", mp] + (["--subscriber", str(int(subscriber))] if subscriber else []) + (extra_args or []),
                      timeout=3600)
 
         def on_reject(meta, v, lines):
@@ -317,7 +424,7 @@ def run_recorded(chk, prop, scen, tag="rec", chunk=150, subscriber=False, extra_
                                  "event": v.event, "trace": [json.loads(l) for l in lines]}, key=key)
 
         acc = vlib.validate_scenarios(SPECD, tspec, tspec + ".cfg", tp, mp, on_reject, stats=chk.extra,
-                                      chunk=(2 if tspec == "QueueCountTrace" else 20))
+                                      chunk=(2 if tspec != "QueueTrace" else vchunk))
         chk.traces += acc
         metas = vlib.read_ndjson(mp)
         total_events += sum(m["events"] for m in metas)
@@ -570,14 +677,16 @@ def run(prop, tier):
     scen = GEN[prop](rng, NSCEN[tier][prop])
     q = tier == "quick"
     if prop == "C01":
-        scen += gen_forget_slowflush(rng, 6 if q else 60) + gen_smallcap_flush(rng, 8 if q else 80) + gen_report_burst(rng, 1 if q else 4)
+        scen += gen_forget_slowflush(rng, 6 if q else 60) + gen_smallcap_flush(rng, 8 if q else 80) + gen_report_burst(rng, 1 if q else 4) + gen_io_burst(rng, 2 if q else 8)
     if prop == "C04":
         scen += gen_slowflush_busy(rng, 10 if q else 80) + gen_flush_storm(rng, 1 if q else 4)
+        scen += gen_allfail_progress(rng, 3 if q else 30) + gen_pingpong(rng, 6 if q else 60)
     if prop == "C05":
-        scen += gen_forget_slowflush(rng, 6 if q else 60) + gen_flush_faults(rng, 4 if q else 40) + gen_stall_shutdown(rng, 3 if q else 20) + gen_drop_variants(rng, 4 if q else 40)
+        scen += gen_forget_slowflush(rng, 6 if q else 60) + gen_flush_faults(rng, 4 if q else 40) + gen_stall_shutdown(rng, 3 if q else 20) + gen_drop_variants(rng, 4 if q else 40) + gen_aod(rng, 4 if q else 40)
     if prop == "C09":
         scen += gen_forget_slowflush(rng, 6 if q else 40)
         scen += gen_race_rounds(rng, 24 if q else 200, 50) + gen_pair_rounds(rng, 10 if q else 80, 60) + gen_count_only(rng, 3 if q else 30, 2400 if q else 12000)
+        scen += gen_builder_order(rng, 4 if q else 20) + gen_overflow_phases(rng, 1 if q else 6)
     for i, s in enumerate(scen):
         s["id"] = i + 1
         s.setdefault("seed", chk.seed * 100000 + i)
@@ -592,6 +701,16 @@ def run(prop, tier):
             prods = s["producers"]
             s["results"] = _results(rng, prods, 0.4, 0.1)
         run_recorded(chk, prop, sub, tag="sub", subscriber=True)
+        # ... also when the installed subscriber filters every event out (it is still a subscriber)
+        sub2 = gen_c01(rng, 6 if q else 60)
+        for i, s in enumerate(sub2):
+            s["id"] = 5500 + i
+            s["seed"] = chk.seed * 100000 + 5500 + i
+            s["results"] = _results(rng, s["producers"], 0.5, 0.1)
+            if i == 0:
+                # the first failure of the process finds the rate limiter open: make it a validation failure
+                s["results"] = {str(10001 + k): "val" for k in range(s["producers"][0]["n"])}
+        run_recorded(chk, prop, sub2, tag="sub2", subscriber=2)
         # ... and a subscriber installed WHILE the queue lives (once per process, so one scenario per run)
         for j in range(1 if q else 6):
             mid = gen_c01(rng, 1)[0]
